@@ -56,7 +56,16 @@ Inductive case :=
 | CState (i : nat)
 | CPair (i j : nat) (eq_ij : obs bool)        (* states[i] == states[j] *)
 | CRow (i : nat) (res : string)               (* states[i] == states[j] for j = 0, 1, ...: 't' / 'f' / 'r'(aised) *)
-| CTables.                                    (* float(repr(x)) is x for every value of this run *)
+| CTables                                     (* float(repr(x)) is x for every value of this run *)
+(* wave 4, OBSERVATION ONLY: the same observations compared with the MODEL alone (no spec oracle, no intended value).  Used
+   for states that hold NEGATIVE ground literals -- GroundedPredicate objects with is_positive = False put into a state
+   through the public attributes.  Such objects are outside C14's quantifier (a state is a set of ground FACTS: no reader
+   and no successor of the library produces one, both readers refuse "(not (p a))" as a state component, and the
+   theorems' [state_ok] demands [gp_pos]); what the library computes on them is recorded and compared with Model/State.v
+   ([gp_untyped] prints "(not (p a))", [gp_copy] keeps the polarity, [state_eq] compares the printed texts). *)
+| CStateM (i : nat)
+| CPairM (i j : nat) (eq_ij : obs bool)
+| CRowM (i : nat) (res : string).
 
 Section Judge.
   Variable E : env.
@@ -186,6 +195,28 @@ Section Judge.
          rb_ok_all i;                                   (* ... also through the library's own reader *)
        v_known := known_state i |}.
 
+  (* ---------- observation only: model versus implementation ---------- *)
+  Definition ser_agrees (s : mstate) (o : obs string) : bool :=
+    obs_eqb sexp_eqb (obs_of_result (parse MFile (s2t (serialize num_text s)))) (tree_of o).
+
+  Definition model_state (i : sinfo) : verdict :=
+    let s := si_dump i in
+    {| v_agree :=
+         ser_agrees s (si_ser i) &&
+         obs_eqb Bool.eqb (Returned (state_eq num_text s s)) (si_self_eq i) &&
+         obs_eqb Bool.eqb (Returned (state_eq num_text (state_copy s) s && state_eq num_text s (state_copy s))) (si_copy_eq i) &&
+         (* the copy's text: the groups and the fluents keep the dicts' order, the facts of a group are printed sorted *)
+         ser_agrees (state_copy s) (si_copy_ser i) &&
+         rb_agree_all i &&
+         tser_agrees s (si_tser i) && tser_agrees (state_copy s) (si_copy_tser i) && hash_agrees (si_hash i);
+       v_ok := true;
+       v_known := false |}.
+
+  Definition model_pair (a b : sinfo) (eq_ab : obs bool) : verdict :=
+    {| v_agree := obs_eqb Bool.eqb (Returned (state_eq num_text (si_dump a) (si_dump b))) eq_ab;
+       v_ok := true;
+       v_known := false |}.
+
   Definition judge_pair (a b : sinfo) (eq_ab : obs bool) : verdict :=
     let same := state_same (want a) (want b) in
     let texts_same :=
@@ -209,7 +240,9 @@ Section Judge.
     | CState i => judge_state (st i)
     | CPair i j e => judge_pair (st i) (st j) e
     | CTables => {| v_agree := tables_ok; v_ok := tables_ok; v_known := false |}
-    | CRow _ _ => {| v_agree := false; v_ok := false; v_known := false |}      (* judged by judge_multi *)
+    | CStateM i => model_state (st i)
+    | CPairM i j e => model_pair (st i) (st j) e
+    | CRow _ _ | CRowM _ _ => {| v_agree := false; v_ok := false; v_known := false |}      (* judged by judge_multi *)
     end.
 
   Definition obs_of_char (c : ascii) : obs bool :=
@@ -219,6 +252,8 @@ Section Judge.
     match c with
     | CRow i res => map (fun jc => judge_pair (st i) (st (fst jc)) (obs_of_char (snd jc)))
                         (combine (seq 0 (String.length res)) (s2t res))
+    | CRowM i res => map (fun jc => model_pair (st i) (st (fst jc)) (obs_of_char (snd jc)))
+                         (combine (seq 0 (String.length res)) (s2t res))
     | _ => [judge c]
     end.
 
@@ -237,6 +272,9 @@ Section Judge.
     | CState i => (judge (CState i), serialize num_text (si_dump (st i)), read_obs (si_ser (st i)), want (st i), den (si_dump (st i)),
                    rb_explain (st i))
     | CPair i j e => (judge c, serialize num_text (si_dump (st i)), read_obs (si_ser (st j)), want (st i), want (st j), (None, None))
+    | CPairM i j e => (judge c, serialize num_text (si_dump (st i)), None, den (si_dump (st i)), den (si_dump (st j)), (None, None))
+    | CStateM i => (judge c, serialize num_text (state_copy (si_dump (st i))), None, den (si_dump (st i)), den (state_copy (si_dump (st i))),
+                    rb_explain (st i))
     | _ => (judge c, "", None, den (empty_state false), den (empty_state false), (None, None))
     end.
 End Judge.
